@@ -53,12 +53,18 @@ Lemma combine_map {A B C} (g : A -> B) (h : A -> C) (l : list A) :
   combine (map g l) (map h l) = map (fun x => (g x, h x)) l.
 Proof. induction l as [|x l IH]; simpl; [reflexivity|]. rewrite IH. reflexivity. Qed.
 
+Lemma nth_error_firstn_lt {A} : forall n (l : list A) i, i < n -> nth_error (firstn n l) i = nth_error l i.
+Proof.
+  induction n as [|n IH]; intros l i H; [lia|]. destruct l as [|x l]; [reflexivity|].
+  destruct i as [|i]; [reflexivity|]. simpl. apply IH. lia.
+Qed.
+
 Section Proofs.
   Variable ff : N -> bytes.
 
   (* StringAt(_, "") is the field ToCSV writes: the two serializers render a cell in the same way, up to naRep *)
   Lemma string_at_csv c : string_at ff [] c = csv_cell ff c.
-  Proof. destruct c as [z|x|b|[s|]|[s|]]; reflexivity. Qed.
+  Proof. destruct c as [z|x|b|[s|]|[s|]]; cbn [string_at csv_cell opt_str]; reflexivity. Qed.
 
   (* naRep only shows for null / NaN *)
   Lemma string_at_na na c :
@@ -67,7 +73,10 @@ Section Proofs.
                         | CStr None | CEnum None => na
                         | _ => csv_cell ff c
                         end.
-  Proof. destruct c as [z|x|b|[s|]|[s|]]; try reflexivity. simpl. destruct (is_nan_bits x); reflexivity. Qed.
+  Proof.
+    destruct c as [z|x|b|[s|]|[s|]]; cbn [string_at csv_cell]; try reflexivity.
+    destruct (is_nan_bits x); reflexivity.
+  Qed.
 
   Definition wof (nc : bytes * coldata) : nat := col_width (fst nc) (col_type (snd nc)).
 
@@ -86,7 +95,7 @@ Section Proofs.
     induction cs as [|nc cs IH]; [reflexivity|]. cbn [omap map]. rewrite IH.
     destruct (cell_at (snd nc) p) as [x| |]; cbn [obind]; try reflexivity.
     rewrite fix_length_ok by (pose proof (col_width_ge (fst nc) (col_type (snd nc))); unfold wof; lia).
-    cbn [obind]. destruct (omap _ cs) as [row| |]; reflexivity.
+    cbn [obind]. destruct (omap (fun nc0 : bytes * coldata => cell_at (snd nc0) p) cs) as [row| |]; reflexivity.
   Qed.
 
   Lemma phys_row_spec f t p : abs f = Ok t ->
@@ -108,7 +117,7 @@ Section Proofs.
     { rewrite Hn, Ht. unfold col_names. apply combine_map. }
     (* header *)
     erewrite (omap_ext_local _ (fun nc => Ok (fix_len (col_header (fst nc) (col_type (snd nc))) c_space (wof nc))));
-      [|intros nc _; apply fix_length_ok; pose proof (col_width_ge (fst nc) (col_type (snd nc))); lia].
+      [|intros nc _; unfold wof; apply fix_length_ok; pose proof (col_width_ge (fst nc) (col_type (snd nc))); lia].
     rewrite omap_pure. cbn [obind].
     (* dashes *)
     erewrite (omap_ext_local _ (fun nc => Ok (repeat c_dash (wof nc))));
@@ -151,18 +160,17 @@ Section Proofs.
   Proof.
     intros Hi Hrow. unfold tstring_lines. cbn [plus nth_error].
     rewrite nth_error_app1.
-    - rewrite nth_error_map. rewrite nth_error_firstn by exact Hi. rewrite Hrow. reflexivity.
+    - rewrite nth_error_map. rewrite nth_error_firstn_lt by exact Hi. rewrite Hrow. reflexivity.
     - rewrite printed_rows_count. assert (i < length (trows t)) by (apply nth_error_Some; congruence). lia.
   Qed.
 
-  (* the truncation marker is there exactly when the table has more than 50 rows; the footer is always last *)
-  Lemma truncated_iff t : In str_truncated (tstring_lines ff t) -> c_maxRowCount < length (trows t) \/
-    In str_truncated (theader ff t :: tdashes ff t :: map (print_row ff (twidths t)) (firstn c_maxRowCount (trows t))
-                      ++ [dims_line (length (tnames t)) (length (trows t))]).
+  (* header, dashes, min(n, 50) rows, the truncation marker exactly when the table has more than 50 rows, the footer *)
+  Lemma lines_count t :
+    length (tstring_lines ff t)
+    = 2 + Nat.min c_maxRowCount (length (trows t)) + (if c_maxRowCount <? length (trows t) then 1 else 0) + 1.
   Proof.
-    unfold tstring_lines. intro H. destruct (c_maxRowCount <? length (trows t)) eqn:E.
-    - left. apply Nat.ltb_lt. exact E.
-    - right. exact H.
+    unfold tstring_lines. cbn [length]. rewrite !app_length, printed_rows_count. cbn [length].
+    destruct (c_maxRowCount <? length (trows t)); cbn [length]; lia.
   Qed.
 
   Lemma last_line_dims t : last (tstring_lines ff t) [] = dims_line (length (tnames t)) (length (trows t)).
